@@ -134,12 +134,13 @@ Definition exec_svg1 (e : svgel) : list pop :=
    else if (vfillk e =? 2)%Z then [mkPop (KFill (veo e)) (vgeo e) (col255 (vfill e)) (vfilla e)]
    else if (vfillk e =? 3)%Z then [mkPop (KFill (veo e)) (vgeo e) (paint_col (PGrad (fst (fst (vfill e))))) 1]
    else []) ++
-  (if (vstrokek e =? 2)%Z then
+  (if ((vstrokek e =? 2) || (vstrokek e =? 3))%Z then
      let j := odef (vjoin e) 0%Z in
      [mkPop (KStroke false (odef (vwidth e) 1) (odef (vcap e) 0%Z) j
                      (if ((j =? 0) || (j =? 3))%Z then odef (vml e) 4 else 0) (odef (vdash e) []) (odef (voff e) 0))
-            (vgeo e) (col255 (vstroke e)) (vstrokea e)]
-   else if (vstrokek e =? 3)%Z then [mkPop KBad (vgeo e) (0, 0, 0) 1]
+            (vgeo e)
+            (if (vstrokek e =? 3)%Z then paint_col (PGrad (fst (fst (vstroke e)))) else col255 (vstroke e))
+            (if (vstrokek e =? 3)%Z then 1 else vstrokea e)]
    else []).
 Definition exec_svg (es : list svgel) : list pop := flat_map exec_svg1 es.
 
